@@ -97,6 +97,11 @@ def build_cond(c, V):
         return for_all(univ, build_cond(c[2], V))
     if k == "const":
         return bool(c[1])
+    if k == "sub":
+        inner = build_cond(c[3], V)
+        if c[1] == "entity":
+            return an(entity(V[c[2][0]], inner))
+        return an(set_of([V[i] for i in c[2]], inner))
     raise ValueError(c)
 
 
